@@ -241,7 +241,62 @@ static void dependent_scenario(int nworkers, int first_kind) {
     }
 }
 
+// resume()-based submissions on a pool that stays alive until everything ran (no stop involved, so none of this is
+// the known finding): a suspend point with two handles, and co_await pool(future) whose future is resolved by
+// another thread while the coroutine is still suspending
+static cocls::async<void> parked2(cocls::future<int> &gate, int id) {
+    int v = co_await gate;
+    (void)v;
+    mark_ran(id);
+}
+static void resume_two_handles(int nworkers) {
+    int64_t *s = vrt_scratch();
+    {
+        auto pool = std::make_unique<cocls::thread_pool>((unsigned)nworkers);
+        cocls::future<int> gate;
+        cocls::promise<int> gp = gate.get_promise();
+        parked2(gate, 0).detach();
+        parked2(gate, 1).detach();
+        {
+            cocls::suspend_point<bool> sp = gp(5);  // carries both coroutines
+            pool->resume(sp);
+            VRT_CHECK(sp.empty(), "pool/resume-left-handles", "resume(suspend_point) left %zu coroutine(s) in the suspend point", sp.size());
+        }
+        vrt_label("lost-live-pool:resume_sp");
+        while (!s[S_RAN] || !s[S_RAN + 1]) vrt_yield();
+        vrt_label("main");
+        for (int i = 0; i < 2; i++)
+            VRT_CHECK(s[S_TID + i] >= 1 && s[S_TID + i] <= nworkers, "pool/ran-outside-pool", "coroutine %d handed to resume() ran on thread %ld which is not a pool worker", i, (long)s[S_TID + i]);
+        pool.reset();
+        vrt_outcome("t0=%ld t1=%ld", (long)s[S_TID], (long)s[S_TID + 1]);
+    }
+}
+static void coawait_fut_concurrent(int nworkers) {
+    int64_t *s = vrt_scratch();
+    {
+        auto pool = std::make_unique<cocls::thread_pool>((unsigned)nworkers);
+        cocls::future<int> gate;
+        cocls::promise<int> gp = gate.get_promise();
+        vstd::thread resolver([&] {
+            vrt_label("resolver");
+            gp(5);
+        });
+        job_coawait_fut(*pool, gate, 0).detach();  // suspends on pool(gate) while the resolver may already be resolving it
+        vrt_label("lost-live-pool:coawait_fut");
+        while (!s[S_RAN] && !s[S_CANC]) vrt_yield();
+        vrt_label("main");
+        resolver.join();
+        VRT_CHECK(s[S_RAN] == 1, "pool/cancelled-on-live-pool", "co_await pool(future) was cancelled although the pool was never stopped");
+        pool.reset();
+        vrt_outcome("t0=%ld", (long)s[S_TID]);
+    }
+}
+
 VRT_REGISTER(reg_pool) {
+    for (int w = 1; w <= 2; w++) {
+        vrt::add("pool_w" + std::to_string(w) + "_live_resume2", [=] { resume_two_handles(w); });
+        vrt::add("pool_w" + std::to_string(w) + "_live_coawaitfut-concurrent", [=] { coawait_fut_concurrent(w); });
+    }
     for (int w = 2; w <= 3; w++)
         for (int k = 0; k < 2; k++) vrt::add("pool_w" + std::to_string(w) + "_dependent_" + (k ? "run" : "detached"), [=] { dependent_scenario(w, k); });
     for (int w = 1; w <= 3; w++)
